@@ -175,6 +175,10 @@ def ev(a, env):
     if k == "agg":
         v = np.array(env.vec(a[2]), dtype=float)
         n = a[1]
+        if n == "dot":
+            if v.ndim != 1:
+                raise IllConditioned("dot of a matrix with itself is no single value")
+            return _num(float(v @ v))       # the vector's dot product with itself
         if n == "sum":
             return _num(v.sum())
         if n == "prod":
@@ -230,6 +234,8 @@ def to_dsl(a, E, model=None):
         n = a[1]
         if n == "rank":
             return el.arr_rank(a[3])
+        if n == "dot":
+            return el.dot(el)
         return getattr(el, "arr_" + n)()
     if k == "lookup":
         return F.lookup(to_dsl(a[1], E, model), a[2])
